@@ -125,9 +125,40 @@ if 'SUPP_LOG_FILE' in os.environ:
 else:
     logging.basicConfig(level=logging.CRITICAL)
 ''' + TAG_SRC + r'''
+from supp import assistant as _assistant, linter as _linter
+from supp.project import Project as _Project
+from supp.compat import nstr as _nstr
+
+
+class Local(object):
+    """The in-process API proper: supp.assistant / supp.linter on a supp.project.Project, driven the
+    way server.py:34-62 documents (no state of its own besides the project)."""
+    def configure(self, config):
+        self.project = _Project(config['sources'], dyn_modules=config.get('dyn_modules'))
+
+    def assist(self, source, position, filename):
+        with self.project.check_changes():
+            return _assistant.assist(self.project, _nstr(source), tuple(position), filename)
+
+    def location(self, source, position, filename):
+        with self.project.check_changes():
+            return _assistant.location(self.project, _nstr(source), tuple(position), filename)
+
+    def lint(self, source, filename, syntax_only=False):
+        with self.project.check_changes():
+            return [r[:4] for r in _linter.lint(self.project, _nstr(source), filename)]
+
+
+def _sig_configure(config): pass
+def _sig_assist(source, position, filename): pass
+def _sig_location(source, position, filename): pass
+def _sig_lint(source, filename, syntax_only=False): pass
+_SIGS = {'configure': _sig_configure, 'assist': _sig_assist, 'location': _sig_location, 'lint': _sig_lint}
+
 listener = Listener(ADDR)
 conn = listener.accept()
 srv = S.Server(None)
+lib = Local()
 while True:
     try:
         msg = conn.recv()
@@ -142,7 +173,20 @@ while True:
         out = ('raise', type(e).__name__, str(e))
     except BaseException as e:
         out = ('escape', type(e).__name__, str(e))
-    conn.send(out)
+    out2 = None
+    if name in _SIGS and (name == 'configure' or hasattr(lib, 'project')):   # "no project yet" is the server's own state
+        try:
+            _SIGS[name](*args, **kwargs)       # only calls that fit the API's signatures
+        except TypeError:
+            pass
+        else:
+            try:
+                out2 = ('ret', tag(getattr(lib, name)(*args, **kwargs)))
+            except Exception as e:
+                out2 = ('raise', type(e).__name__, str(e))
+            except BaseException as e:
+                out2 = ('escape', type(e).__name__, str(e))
+    conn.send((out, out2))
 '''
 
 
@@ -250,8 +294,13 @@ def python_wrapper():
         return _WRAPPER[0]
 
 
+_STDIO_LOCK = threading.Lock()
+
+
 class Runner(object):
-    def __init__(self, workdir):
+    def __init__(self, workdir, default_logging=False):
+        self.default_logging = default_logging
+        self.last_lib = None
         self.workdir = workdir
         self.proj = os.path.join(workdir, 'proj')
         os.makedirs(self.proj)
@@ -288,8 +337,31 @@ class Runner(object):
         # the server inherits stderr (tracebacks of BaseExceptions): send it to a file through a
         # wrapper `executable` (the constructor's documented parameter), same interpreter
         penv['C15_STDERR'] = os.path.join(self.workdir, 'server.stderr')
-        self.env = Environment(executable=python_wrapper(), env=penv)
-        self.env.run()                       # start the server and connect (remote.py:84-90)
+        if self.default_logging:
+            # the way an editor plugin starts it: Environment() with no log file and the interpreter
+            # itself; the server logs to whatever stdout/stderr Environment._run gives it. The harness's
+            # own fd 1/2 point at files while the server is being started, so that an inheriting server
+            # writes there (and not into the check's output)
+            penv = {'PYTHONPATH': REPO}
+            self.env = Environment(executable=PY, env=penv)
+            with _STDIO_LOCK:
+                sys.stdout.flush()
+                sys.stderr.flush()
+                saved = os.dup(1), os.dup(2)
+                fds = [os.open(os.path.join(self.workdir, n), os.O_WRONLY | os.O_CREAT | os.O_APPEND)
+                       for n in ('server.stdout', 'server.stderr')]
+                try:
+                    os.dup2(fds[0], 1)
+                    os.dup2(fds[1], 2)
+                    self.env.run()
+                finally:
+                    os.dup2(saved[0], 1)
+                    os.dup2(saved[1], 2)
+                    for fd in list(saved) + fds:
+                        os.close(fd)
+        else:
+            self.env = Environment(executable=python_wrapper(), env=penv)
+            self.env.run()                   # start the server and connect (remote.py:84-90)
         wpath = os.path.join(self.workdir, 'refworker.py')
         with open(wpath, 'w') as f:
             f.write(WORKER_SRC)
@@ -297,6 +369,7 @@ class Runner(object):
         e = dict(os.environ)
         e.update(penv)
         self.wproc = subprocess.Popen([PY, wpath, os.path.join(REPO, 'supp'), addr], env=e,
+                                      stdout=open(os.path.join(self.workdir, 'worker.stdout'), 'w'),
                                       stderr=open(os.path.join(self.workdir, 'worker.stderr'), 'w'))
         t0 = time.time()
         while True:
@@ -310,7 +383,11 @@ class Runner(object):
 
     def inproc(self, name, args, kwargs):
         self.wconn.send(('call', name, tuple(args), kwargs))
-        return self.wconn.recv()
+        return self.recv_ref()
+
+    def recv_ref(self):
+        out, self.last_lib = self.wconn.recv()
+        return out
 
     def stop(self):
         try:
@@ -391,7 +468,8 @@ def run_sequence(seq, workdir, timeout):
        mism      direct-evaluator mismatches [(index, what)]"""
     from supp.umsgpack import dumps, loads
     os.makedirs(workdir)
-    r = Runner(workdir)
+    timeout = seq.get('call_timeout', timeout)
+    r = Runner(workdir, default_logging=bool(seq.get('default_logging')))
     res = {'calls': [], 'observed': [], 'outcomes': [], 'alive': [], 'mism': [], 'times': [], 'sizes': [],
            'expected': [], 'obs_canon': [],
            'timed_out': False, 'env_equal': None, 'final_alive': None}
@@ -479,6 +557,7 @@ def run_sequence(seq, workdir, timeout):
                     size = 0
                     can_send = False
                 outcome = None
+                lib = None
                 if not can_send:
                     exp = ('local',)
                 elif not server_alive:
@@ -487,9 +566,12 @@ def run_sequence(seq, workdir, timeout):
                     exp = ('dead',)
                     server_alive = False
                 else:
-                    outcome = r.wconn.recv() if prefetched else r.inproc(name, args, kwargs)
+                    outcome = r.recv_ref() if prefetched else r.inproc(name, args, kwargs)
+                    lib = r.last_lib
                     if outcome[0] == 'ret' and name == 'location':
                         outcome = ('ret', canon_location(outcome[1]))
+                    if lib is not None and lib[0] == 'ret' and name == 'location':
+                        lib = ('ret', canon_location(lib[1]))
                     if outcome[0] == 'escape' and o[0] == 'raised' and alive_now:
                         # BaseException (SystemExit, KeyboardInterrupt): outside the property's domain. The pinned
                         # server.py:43 lets it through (server ends, modelled as Escape); a server that reports it
@@ -522,6 +604,17 @@ def run_sequence(seq, workdir, timeout):
                 if eo != oo:
                     res['mism'].append((idx, 'request %d %s: in-process %s => expected %s, client observed %s'
                                         % (idx, c[0], short(outcome, 200), short(eo), short(oo))))
+                elif lib is not None:
+                    # the library-level in-process API (supp.assistant / supp.linter on a Project), which has
+                    # no state besides the project: catches state kept by the server's request methods
+                    le = expected_obs(lib)
+                    le = (le[0], t_sort_dicts(le[1])) if le[0] == 'returned' else le
+                    res['lib_compared'] = res.get('lib_compared', 0) + 1
+                    if le != oo:
+                        res['mism'].append((idx, 'request %d %s: the in-process API (supp.%s on an identical Project) gives %s, '
+                                                 'client observed %s' % (idx, c[0], 'linter.lint' if c[0] == 'lint' else
+                                                                        'project.Project' if c[0] == 'configure' else 'assistant.' + c[0],
+                                                                        short(le), short(oo))))
             if res['timed_out']:
                 break
         # ---- liveness at the end ----------------------------------------------------------
@@ -875,6 +968,7 @@ def gen_sequences(ctx):
     for j in range(ctx.pick(50, 900)):
         n = rng.randint(1, maxlen)
         steps = []
+        issued = []
         nfail = 0
         for i in range(n):
             x = rng.random()
@@ -887,8 +981,12 @@ def gen_sequences(ctx):
             elif x < 0.52:
                 rel, content = rng.choice(EDITS)
                 steps.append({'edit': rel, 'content': content})
+            elif x < 0.65 and issued:
+                steps.append({'call': rng.choice(issued)})        # an earlier request again, verbatim
             else:
-                steps.append({'call': g_valid(rng)[0]})
+                c = g_valid(rng)[0]
+                issued.append(c)
+                steps.append({'call': c})
         if rng.random() < 0.3:
             steps.append({'call': list(rng.choice(FATAL))})
             for _ in range(rng.randint(0, 2)):
@@ -923,6 +1021,11 @@ def gen_sequences(ctx):
             else:
                 calls.append(g_valid(rng)[0])
         seqs.append({'files': FILES, 'steps': [{'pipe': calls}], 'tag': 'pipeline'})
+    # (h) the same request repeated verbatim around re-configures / edits of the modules it depends on
+    seqs.extend(repeat_sequences(ctx))
+    # (i) default logging (no log file, the server's stdout/stderr as Environment._run sets them up):
+    #     long runs of failing requests, huge messages, output on stdout/stderr
+    seqs[0:0] = stdio_sequences(ctx)
     # (f) result sizes: every reply / request length around the MessagePack format boundaries
     seqs.extend(sweep_sequences(ctx))
     # (g) slow requests: a reply that takes seconds still answers ITS request, later replies do not shift
@@ -1008,6 +1111,79 @@ def sweep_chunk(ctx, ns, first):
         loc = 'if a:\n    pass\n' + ''.join('elif a == %d:\n    x = %d\n' % (i, i) for i in range(n)) + 'x'
         steps.append({'call': ['location', [loc, {'$tuple': [loc.count('\n') + 1, 1]}, X], {}]})
     seqs.append({'files': files, 'steps': steps, 'tag': 'sweep-assist-location'})
+    return seqs
+
+
+REPEAT_QUERIES = [
+    ['lint', ['from mod1 import *\nprint(bar, beta_one, fresh_name, foo)\n', X], {}],
+    ['lint', ['from pkg.sub import *\nC\nhelper\nattr2\nundefined_name\n', X], {}],
+    ['lint', ['import altonly\nimport mod1\nprint(mod1, altonly)\nzz\n', X], {}],
+    ['lint', ['from mod1 import *\n', X], {'syntax_only': True}],
+    ['assist', ['import mod1\nmod1.', {'$tuple': [2, 5]}, X], {}],
+    ['assist', ['from pkg.sub import C\nC().', {'$tuple': [2, 4]}, X], {}],
+    ['assist', ['from mod1 import *\nf', {'$tuple': [2, 1]}, X], {}],
+    ['location', ['import mod1\nmod1.foo', {'$tuple': [2, 7]}, X], {}],
+    ['location', ['from mod1 import *\nBase', {'$tuple': [2, 2]}, X], {}],
+    ['assist', ['import ', {'$tuple': [1, 7]}, X], {}],
+]
+
+
+def repeat_sequences(ctx):
+    """Q ... (configure of another root | rewrite of a module Q depends on | failing request | other
+    query, but often NO other request of Q's kind) ... the byte-identical Q again: a reply must be
+    computed from the project as it is now, not remembered from the last time."""
+    rng = ctx.rng
+    seqs = []
+    changes = ([{'call': ['configure', [{'sources': r}], {}]} for r in ROOTS] +
+               [{'edit': rel, 'content': content} for rel, content in EDITS] +
+               [{'edit': 'mod1.py', 'content': 'def only_this():\n    pass\n'},
+                {'edit': 'alt/mod1.py', 'content': 'fresh_name = 3\nbar = 4\n'},
+                {'edit': 'pkg/sub.py', 'content': 'helper = 1\n'}])
+    for j in range(ctx.pick(16, 120)):
+        q = rng.choice(REPEAT_QUERIES)
+        same_kind_between = rng.random() < 0.25
+        steps = [{'call': ['configure', [{'sources': rng.choice(ROOTS)}], {}]}]
+        for rep in range(rng.randint(2, ctx.pick(4, 8))):
+            steps.append({'call': q})
+            if rng.random() < 0.3:
+                steps.append({'call': q})                 # twice in a row, nothing changed
+            for k in range(rng.randint(0, 2)):
+                if rng.random() < 0.5:
+                    steps.append({'call': g_failing(rng)[0]})
+                else:
+                    o = rng.choice(REPEAT_QUERIES)
+                    if o[0] != q[0] or same_kind_between:
+                        steps.append({'call': o})
+            steps.append(rng.choice(changes))
+            if rng.random() < 0.3:
+                steps.append(rng.choice(changes))
+        steps.append({'call': q})
+        seqs.append({'files': FILES, 'steps': steps, 'tag': 'repeat'})
+    return seqs
+
+
+def stdio_sequences(ctx):
+    rng = ctx.rng
+    seqs = []
+    cfg = {'call': ['configure', CONFIGURE_OK[0], {}]}
+    # a long run of failing requests (each logs a traceback with the default logging set-up)
+    for nfail in ctx.pick([450], [450, 3000]):
+        steps = [cfg]
+        for i in range(nfail):
+            steps.append({'call': g_failing(rng, rng.choice(['unknown', 'arity', 'raises', 'configure']))[0]})
+            if i % 25 == 24:
+                steps.append({'call': ['eval', ['return "alive-%d"' % i], {}]})
+        steps.append({'call': ['assist', ['import mod1\nmod1.f', {'$tuple': [2, 6]}, X], {}]})
+        seqs.append({'files': FILES, 'steps': steps, 'tag': 'stdio-failures', 'default_logging': True, 'call_timeout': 20})
+    # one failure with a huge message / a request that writes a lot to stdout or stderr
+    for n in ctx.pick([70000, 300000], [4096, 65536, 70000, 300000, 2 * 2 ** 20]):
+        for body in ('raise ValueError("m" * %d)' % n, 'print("o" * %d)\nreturn 1' % n,
+                     'import sys\nsys.stderr.write("e" * %d)\nreturn 2' % n):
+            steps = [cfg, {'call': ['eval', ['return "before"'], {}]}, {'call': ['eval', [body], {}]},
+                     {'call': ['eval', ['return "after"'], {}]}, {'call': g_failing(rng)[0]},
+                     {'call': ['lint', ['import os\nx = y\n', X], {}]}, {'call': ['eval', [body], {}]},
+                     {'call': ['eval', ['return "last"'], {}]}]
+            seqs.append({'files': FILES, 'steps': steps, 'tag': 'stdio-output', 'default_logging': True, 'call_timeout': 20})
     return seqs
 
 
@@ -1307,7 +1483,7 @@ def _run(ctx):
             fk = failure_kind(c)
             big = res['sizes'][j] >= 65536 or (res['observed'][j][0] == 'returned' and res['observed'][j][1][0] == 's'
                                                and len(res['observed'][j][1][1]) >= 65536)
-            nontrivial = bool(fk) or failed_before or big or seq_mode(seq) != 'sync' or seq['tag'].startswith(('sweep', 'slow'))
+            nontrivial = bool(fk) or failed_before or big or seq_mode(seq) != 'sync' or seq['tag'].startswith(('sweep', 'slow', 'repeat', 'stdio'))
             ctx.count((seq['tag'], j, json.dumps(res['calls'][:j + 1], sort_keys=True, default=repr)[-4000:]), nontrivial=nontrivial)
             ctx.histogram('request_kind', fk or c[0])
             ctx.histogram('observation', res['observed'][j][0])
@@ -1332,7 +1508,7 @@ def _run(ctx):
             ctx.sample({'tag': seq['tag'], 'requests': [c[0] for c in res['calls']][:14],
                         'observed': [short(o, 60) for o in res['observed']][:14]})
         for idx, what in res['mism'][:3]:
-            if process_dependent(ctx, seq, idx, res):
+            if 'the in-process API (supp.' not in what and process_dependent(ctx, seq, idx, res):
                 ctx.histogram('process_dependent_answer_not_counted(C17)', res['calls'][idx][0])
                 ctx.notes.append('sequence %d request %d (%s): the in-process answer differs between processes '
                                  '(C17 / F4), not a C15 disagreement' % (i, idx, res['calls'][idx][0]))
@@ -1412,7 +1588,7 @@ def _run(ctx):
 
 def strip(seq):
     s = {'steps': seq['steps'], 'tag': seq.get('tag')}
-    for k in ('id', 'base', 'inject_call'):
+    for k in ('id', 'base', 'inject_call', 'default_logging', 'call_timeout'):
         if k in seq:
             s[k] = seq[k]
     if seq.get('files') is not FILES and seq.get('files') != FILES:
